@@ -370,7 +370,10 @@ class Interp:
             # calling an opaque value (e.g. `fn(residual)`, a module attribute)
             term = T("callv", (_term(f), tuple(_term(a) for a in args), tuple(sorted((k, _term(v)) for k, v in kwargs.items()))))
             self.log("callv", node, callee=f, args=list(args), kwargs=kwargs)
-            return TV(term)
+            ft = _term(f)
+            if isinstance(ft, T) and ft.op == "attr" and isinstance(ft.args[1], str) and ft.args[1].endswith("_") and not ft.args[1].endswith("__"):
+                self.log("inplace", node, target=f, op=ft.args[1], alias=getattr(f, "alias", frozenset()))
+            return TV(term, kind="opaque" if isinstance(f, TV) and f.kind == "opaque" and isinstance(ft, T) and ft.op == "attr" else "tensor")
         if isinstance(f, Unknown):
             return Unknown(f"call of {f}")
         raise Unsupported(f"call of {type(f).__name__} {f!r}")
@@ -1381,7 +1384,7 @@ class Interp:
         self.log("super", n, method=meth, args=args, kwargs=kwargs, obj=selfv)
         if meth in ("__init__",):
             return None
-        return TV(T("super", (meth, tuple(_term(a) for a in args), tuple(sorted((k, _term(v)) for k, v in kwargs.items())))))
+        return TV(T("super", (meth, tuple(_term(a) for a in args), tuple(sorted((k, _term(v)) for k, v in kwargs.items())))), kind="opaque")
 
     def _call_super_func(self, f: FuncV, base: ClassV, selfv: Any, args: List[Any], kwargs: Dict[str, Any], node: Any) -> Any:
         return self.call_function(f, [selfv, *args], kwargs, node)
